@@ -13,7 +13,7 @@ import vlib, c01_lib as L
 from vlib import Failure
 
 HEADER = ('Require Import PonyV.Base.PyBase PonyV.Model.C01Expr PonyV.Model.C01Sql PonyV.Model.C01Translate PonyV.Model.C01Eqb '
-          'PonyV.Model.C01Safe PonyV.Model.C01Query.\nOpen Scope Z_scope.\n')
+          'PonyV.Model.C01Safe PonyV.Model.C01Query PonyV.Model.C01Like PonyV.Model.C01LikeEqb.\nOpen Scope Z_scope.\n')
 
 PROVIDERS = ('sqlite', 'postgres', 'mysql', 'oracle')
 
@@ -140,6 +140,68 @@ def structural_cases(ctx, inputs, providers=PROVIDERS):
                     exprs.append(('oqxs_eqb (tr_filter %s %s) None' if mode == 'filter' else 'oqx_eqb (tr_project %s %s) None') % (L.DN[prov], ce))
                     meta.append({'provider': prov, 'mode': mode, 'query': L.src(e), 'params': params,
                                  'impl': 'raises %s: %s' % (type(ex).__name__, str(ex)[:200]), 'origin': origin})
+    return exprs, meta, dis, nontriv, dist
+
+
+def like_inputs(ctx, n_random):
+    """[(like tree, params)]: the small exhaustive scope + random haystack expressions / needle shapes."""
+    out = list(L.like_sweep())
+    g = L.Gen(ctx.rng)
+    for _ in range(n_random):
+        g.reset()
+        hay = g.value('str', ctx.rng.choice((1, 2, 3)), True)
+        shape = ctx.rng.choice(('literal', 'param', 'attr', 'expr'))
+        if shape == 'literal': needle = ('str', ctx.rng.choice(L.LIKE_POOL))
+        elif shape == 'param':
+            needle = g.new_param('str'); g.params[needle[1]] = ctx.rng.choice(L.LIKE_POOL)
+        elif shape == 'attr': needle = ('attr', ctx.rng.choice(('u', 's')))
+        else: needle = g.value('str', 2, True)
+        out.append((('like', ctx.rng.choice(('startswith', 'endswith', 'contains')), ctx.rng.random() < 0.4, hay, needle), dict(g.params)))
+    return out
+
+
+def like_cases(ctx, inputs, real, providers=PROVIDERS):
+    """Structural tie of StringMixin._like on the four providers (like_of vs the real condition AST), semantic tie of the LIKE
+    matcher (lcond_eval DSqlite of the real AST vs the rows real SQLite keeps), and py_like vs Python's str methods."""
+    from pony import orm
+    exprs, meta, dis, nontriv = [], [], [], set()
+    dist = {'structural': 0, 'sqlite_rows': 0, 'python_str_methods': 0, 'translator_raises': 0}
+    for num, (e, params) in enumerate(inputs):
+        for prov in providers:
+            if prov == 'oracle' and oracle_skips(e, params): continue
+            db, P = L.get_db(prov)
+            nullable = {k: L.attr_nullable(P, k) for k in L.ATTRS}
+            try:
+                conds = L.translate_filter(prov, e, params)
+                if len(conds) != 1: raise L.Unmodelled('%d conditions' % len(conds))
+                exprs.append('olcond_eqb %s (Some %s)' % (L.like_model_term(prov, e, nullable), L.lcond(conds[0])))
+                meta.append({'provider': prov, 'mode': 'like-structural', 'query': L.src(e), 'params': params, 'impl': L.strip_ast(conds)})
+                dist['structural'] += 1; nontriv.add((prov, L.src(e)))
+            except L.Unmodelled as ex:
+                dis.append({'what': '_like produced an AST outside the modelled shapes: %s' % ex, 'input': {'provider': prov, 'query': L.src(e), 'params': params}})
+            except Exception as ex:
+                dist['translator_raises'] += 1
+                exprs.append('olcond_eqb %s None' % L.like_model_term(prov, e, nullable))
+                meta.append({'provider': prov, 'mode': 'like-structural', 'query': L.src(e), 'params': params, 'impl': 'raises %s' % type(ex).__name__})
+        # semantic: the rows real SQLite keeps vs the matcher on the real AST (every third input in the quick tier)
+        if not ctx.thorough and num % 3: continue
+        try:
+            kept, conds, sql = real.raw_filter(e, params)
+            if len(conds) == 1:
+                lc = L.lcond(conds[0])
+                for i, row in real.rows.items():
+                    exprs.append('(otv_code (lcond_eval DSqlite (encenv DSqlite %s) %s) =? %d)%%Z' % (L.coq_env(row, params, real.names[i]), lc, 1 if i in kept else 0) if i in kept
+                                 else 'negb (otv_code (lcond_eval DSqlite (encenv DSqlite %s) %s) =? 1)%%Z' % (L.coq_env(row, params, real.names[i]), lc))
+                    meta.append({'mode': 'like-sqlite', 'query': L.src(e), 'params': params, 'row': row, 'sql': sql, 'impl_kept': i in kept})
+                    dist['sqlite_rows'] += 1
+        except (L.Unmodelled, Exception) as ex:
+            dis.append({'what': 'LIKE query failed on real SQLite: %s' % ex, 'input': {'query': L.src(e), 'params': params}})
+    # py_like vs Python
+    for n in L.LIKE_POOL:
+        for s_ in ('a!b', 'a!', '!', 'ab', 'a%b', 'a_b', '', 'b!a', 'aab'):
+            for kind, fn in (('KStarts', s_.startswith(n)), ('KEnds', s_.endswith(n)), ('KContains', n in s_)):
+                exprs.append('Bool.eqb (py_like %s %s %s) %s' % (kind, L.cstr(n), L.cstr(s_), 'true' if fn else 'false'))
+                meta.append({'mode': 'py_like', 'query': '%s %s %r %r' % (kind, 'of', n, s_), 'impl': fn}); dist['python_str_methods'] += 1
     return exprs, meta, dis, nontriv, dist
 
 
